@@ -20,6 +20,7 @@ import (
 	"sort"
 	"strings"
 	"sync"
+	"syscall"
 	"time"
 
 	"github.com/go-git/go-billy/v6"
@@ -1254,6 +1255,13 @@ func (d *DotGit) Ref(name plumbing.ReferenceName) (*plumbing.Reference, error) {
 	ref, err := d.readReferenceFile(".", name.String())
 	if err == nil {
 		return ref, nil
+	}
+	// Only the absence of a loose value sends the lookup to packed-refs. Any
+	// other failure to read the loose file is an error: falling back would
+	// report "not found", or a stale packed value, for a reference that exists.
+	// (ENOTDIR: a parent component of the name is itself a loose ref file.)
+	if !os.IsNotExist(err) && !errors.Is(err, syscall.ENOTDIR) && !errors.Is(err, ErrIsDir) && !errors.Is(err, ErrEmptyRefFile) {
+		return nil, err
 	}
 
 	return d.packedRef(name)
